@@ -108,6 +108,7 @@ func loadWorld(repo string, useVTA bool) (*World, error) {
 		}
 	}
 	sort.Slice(w.srcFuncs, func(i, j int) bool { return fnKey(w.srcFuncs[i]) < fnKey(w.srcFuncs[j]) })
+	computeNoReturn(w.srcFuncs)
 	g4path := filepath.Join(abs, "grammar", "PacketDsl.g4")
 	g, err := parseG4File(g4path)
 	if err != nil {
@@ -239,6 +240,61 @@ func (w *World) reachable(roots []*ssa.Function, keep func(*ssa.Function) bool) 
 
 func (w *World) isRepoFunc(fn *ssa.Function) bool {
 	return fn != nil && fn.Pkg != nil && (fn.Pkg == w.Model || fn.Pkg == w.Parser || fn.Pkg == w.Cmd || fn.Pkg == w.Grammar)
+}
+
+// isRepoLike: function of the repo including the generated grammar package (traversed, never a rule subject),
+// wrappers and instantiations included.
+func (w *World) isRepoLike(fn *ssa.Function) bool {
+	if w.isSubjectFunc(fn) {
+		return true
+	}
+	p := fn.Pkg
+	if p == nil && fn.Parent() != nil {
+		p = fn.Parent().Pkg
+	}
+	if p == nil {
+		if o := fn.Origin(); o != nil {
+			p = o.Pkg
+		}
+	}
+	if p == nil && fn.Signature.Recv() != nil {
+		// synthetic wrapper: decide by receiver's package
+		if n := namedOf(fn.Signature.Recv().Type()); n != nil && n.Obj().Pkg() != nil {
+			return strings.HasPrefix(n.Obj().Pkg().Path(), modPath)
+		}
+	}
+	return p != nil && p == w.Grammar
+}
+
+func (w *World) subjectsOnly(m map[*ssa.Function]bool) map[*ssa.Function]bool {
+	out := map[*ssa.Function]bool{}
+	for f := range m {
+		if w.isSubjectFunc(f) && f.Blocks != nil {
+			out[f] = true
+		}
+	}
+	return out
+}
+
+// compileReach: subject functions reachable from cmd.Compile (model visitor only; the formatter is not reachable from compile).
+func (w *World) compileReach() map[*ssa.Function]bool {
+	root := w.Cmd.Func("Compile")
+	return w.subjectsOnly(w.reachable([]*ssa.Function{root}, func(f *ssa.Function) bool {
+		return w.isRepoLike(f) && recvNamedCore(f) != "PacketDslFormattor"
+	}))
+}
+
+func recvNamedCore(f *ssa.Function) string {
+	if f.Signature.Recv() == nil {
+		if f.Parent() != nil {
+			return recvNamedCore(f.Parent())
+		}
+		return ""
+	}
+	if n := namedOf(f.Signature.Recv().Type()); n != nil {
+		return n.Obj().Name()
+	}
+	return ""
 }
 
 // isSubjectFunc: repo function that is not ANTLR-generated code.
